@@ -1,15 +1,19 @@
 import SynKitModel.Store
 import SynKitProofs.StoreLemmas
+import SynKitProofs.StoreStrLemmas
 /-!
 # C15 — the reaction-network store stays consistent under every history of edits
 
-Property theorems only; helper lemmas live in `SynKitProofs/StoreLemmas.lean`.
+Property theorems only; helper lemmas live in `SynKitProofs/StoreLemmas.lean` and, for the
+string entry points (`add_rxn_from_str`, `parse_rxns`), in `SynKitProofs/StoreStrLemmas.lean`.
 -/
 namespace SynKit.Store
 
 /-- **C15, invariant part.** Every store of every world reachable from empty stores by any
 sequence of operations (add with generated or chosen ids, remove, remove species with or
-without pruning, merge, copy, assign molecule) satisfies `Store.Inv`: ids unique, species
+without pruning, merge, copy, assign molecule, and the string entry points `add_rxn_from_str`,
+`parse_rxns` in all its input forms — including histories in which a line fails to parse and
+`parse_rxns` stops half way) satisfies `Store.Inv`: ids unique, species
 set exact (up to explicitly kept species), both indices exact, molecule labels only for
 present species, sides well formed. -/
 theorem inv_reachable (n : Nat) (ops : List Op) : ∀ s ∈ run (initWorld n) ops, s.Inv :=
@@ -76,5 +80,148 @@ invariant is therefore covered by `inv_reachable`. -/
 example : ((run (initWorld 1)
     [.add 0 [("A", 1)] [("B", 2)] none (some "r_1"), .add 0 [("B", 1)] [("C", 1)] none none,
      .removeSpecies 0 "A" false])[0]?.map (·.ids)) = some ["r_1", "r_2"] := by decide
+
+/-! ## String entry points (`add_rxn_from_str`, `parse_rxns`) -/
+
+open SynKit.Views in
+/-- **C15, refinement part (add from string).** A well-formed line — the sides printed the way
+`RXNSide.__repr__` prints them from labels that are `WfLabel`, ` >> ` between them, and either a
+`| rule=R` suffix that is parsed (`LineMode`, first alternative) or no suffix at all (second) —
+adds exactly the reaction it spells: the call succeeds, returns the id the generator hands out
+for the decided rule (which was not in use), appends one reaction with that id, the decided rule
+and the two spelled sides (in printed order: a permutation of the spelled dict), leaves every
+other reaction alone and keeps the invariant. The rule is decided as the code does
+(`decidedRule`): the `rule=` argument if it is not `None`; else the suffix's rule; else — and
+also for `rule=""` — `"r"`. -/
+theorem addFromStr_spec (s : Store) (f : StrFlags) (e : Views.Rxn) (ex : Option String) (sfx : Bool)
+    (hm : LineMode f sfx)
+    (hs : WfSide e.reactants ∧ WfSide e.products) (hl : WfLabels e.reactants ∧ WfLabels e.products)
+    (hr : f.includeRule = true → WfRule e.rule) (hne : e.reactants ≠ [] ∨ e.products ≠ []) :
+    let rule := decidedRule ex (if f.includeRule then some e.rule else none)
+    let i := (s.nextId rule).2
+    let new : Edge := ⟨i, rule, sortSide e.reactants, sortSide e.products⟩
+    ∃ s', s.addFromStr (fmtLine f e) ex sfx = (s', .ok i) ∧ i ∉ s.ids ∧
+      s'.edges = s.edges ++ [new] ∧ s'.findEdge i = some new ∧
+      (∀ j, j ≠ i → s'.findEdge j = s.findEdge j) ∧
+      new.reactants.Perm e.reactants ∧ new.products.Perm e.products ∧
+      (s.Inv → s'.Inv) := by
+  intro rule i new
+  have hfresh : i ∉ s.ids := nextId_fresh s rule
+  refine ⟨(s.nextId rule).1.insertEdge new, addFromStr_wfLine s f e ex sfx hm hs hl hr hne, hfresh,
+    rfl, ?_, ?_, Str.sortSide_perm _, Str.sortSide_perm _, ?_⟩
+  · exact findEdge_insertEdge_self (s.nextId rule).1 new hfresh
+  · intro j hj
+    exact findEdge_insertEdge_other (s.nextId rule).1 new j hj
+  · intro hinv
+    have := addFromStr_inv s (fmtLine f e) ex sfx hinv
+    rw [addFromStr_wfLine s f e ex sfx hm hs hl hr hne] at this
+    exact this
+
+/-- **C15, error part (add from string).** Whatever the text layer raises (`ValueError` when
+`>>` is missing, `IndexError` on a part made of `*` only) is raised before the store is touched:
+same exception class, store unchanged. -/
+theorem addFromStr_parse_error (s : Store) (line : List Char) (rule : Option String) (sfx : Bool)
+    (err : Views.Err) (h : Views.parseLine rule sfx line = .error err) :
+    s.addFromStr line rule sfx = (s, .error (errOfViews err)) := by
+  unfold Store.addFromStr
+  rw [h]
+
+/-- **C15, refinement part (parse_rxns).** For items that are well formed (`Item.Wf`: bare lines
+always; lines with a `| rule=R` suffix when the loop body has the suffix parsed) `parse_rxns`
+succeeds and appends, in order, one reaction per item with the spelled sides and the rule
+`parseRxnsRule` decides from explicit rule / suffix / `default_rule` / `prefer_suffix`. -/
+theorem parseRxns_spec (s : Store) (dr : String) (sfx pref : Bool) (items : List Item)
+    (h : ∀ it ∈ items, it.Wf sfx pref) :
+    ∃ s', s.parseRxns (items.map Item.line) dr sfx pref = (s', .ok ()) ∧
+      ∃ added : List Edge, s'.edges = s.edges ++ added ∧
+        added.map Edge.content = items.map (Item.expected dr sfx pref) :=
+  parseRxns_wfItems dr sfx pref items s h
+
+/-- **C15, partial effects (parse_rxns).** On arbitrary input — also when some line raises and
+`parse_rxns` stops half way — the reactions stored before are untouched and still come first:
+the table only grows at the end. (That the store reached is consistent is `inv_reachable`.) -/
+theorem parseRxns_only_appends (s : Store) (items : List (List Char × Option String)) (dr : String)
+    (sfx pref : Bool) :
+    ∃ added, (s.parseRxns items dr sfx pref).1.edges = s.edges ++ added :=
+  parseRxns_edges_prefix items dr sfx pref s
+
+/-- `parse_rxns(lines, rules=...)` with a wrong number of rules raises `ValueError` before
+anything is added. -/
+theorem parseRxnsRules_length_mismatch (s : Store) (lines : List (List Char))
+    (rules : List (Option String)) (dr : String) (sfx pref : Bool) (h : lines.length ≠ rules.length) :
+    s.parseRxnsRules lines rules dr sfx pref = (s, .error .valueError) := by
+  unfold Store.parseRxnsRules
+  rw [if_pos h]
+
+section Examples
+open SynKit.Views
+
+/-- Non-vacuity of `addFromStr_spec`: its hypotheses hold for the line `2A + B >> C | rule=R1`
+(suffix parsed) and for the bare `2A + B >> C` … -/
+def exRxn : Views.Rxn := ⟨"", "R1", [("B", 1), ("A", 2)], [("C", 1)]⟩
+
+example : LineMode {} true ∧ LineMode { includeRule := false } false :=
+  ⟨Or.inl ⟨rfl, rfl⟩, Or.inr ⟨rfl, rfl⟩⟩
+example : (WfSide exRxn.reactants ∧ WfSide exRxn.products) ∧
+    (WfLabels exRxn.reactants ∧ WfLabels exRxn.products) ∧ WfRule exRxn.rule ∧
+    (exRxn.reactants ≠ [] ∨ exRxn.products ≠ []) := by
+  unfold WfSide WfLabels WfRule; decide
+example : String.ofList (fmtLine {} exRxn) = "2A + B >> C | rule=R1" := by decide
+
+/-- … and the model computes what the theorem says: rule from the suffix, from the argument
+(argument wins over suffix), default `"r"` (also for `rule=""`). -/
+example : (({} : Store).addFromStr "2A + B >> C | rule=R1".toList none true).1.edges =
+    [⟨"R1_1", "R1", [("A", 2), ("B", 1)], [("C", 1)]⟩] := by decide
+example : (({} : Store).addFromStr "2A + B >> C | rule=R1".toList (some "X") true).1.edges =
+    [⟨"X_1", "X", [("A", 2), ("B", 1)], [("C", 1)]⟩] := by decide
+example : (step [{}] (.addFromStr 0 "2A+B>>C".toList (some "") false)).2 = .okId "r_1" := by decide
+
+/-- Why a line with suffix is not well formed under `parse_rule_from_suffix=False` (which is
+also how `parse_rxns` hands over a line that comes with an explicit per-line rule unless
+`prefer_suffix`): the suffix stays in the text and becomes part of the last product label. -/
+theorem suffix_unparsed_example :
+    (({} : Store).addFromStr "A >> B | rule=R1".toList (some "X") false).1.edges =
+      [⟨"X_1", "X", [("A", 1)], [("B | rule=R1", 1)]⟩] ∧
+    (({} : Store).parseRxns [("A >> B | rule=R1".toList, some "X")] "r" true false).1.edges =
+      [⟨"X_1", "X", [("A", 1)], [("B | rule=R1", 1)]⟩] := by decide
+
+/-- Error branches are modelled explicitly: missing `>>`, a `*`-only part, an empty reaction
+(`ValueError` of `add_rxn`, raised after the counter was advanced). -/
+example : (step [{}] (.addFromStr 0 "A + B".toList none true)).2 = .err .valueError := by decide
+example : (step [{}] (.addFromStr 0 "* >> B".toList none true)).2 = .err .indexError := by decide
+example : (step [{}] (.addFromStr 0 "∅ >> ∅".toList none true)).2 = .err .valueError ∧
+    (({} : Store).addFromStr "∅ >> ∅".toList none true).1.counters = [("r", 1)] := by decide
+
+/-- `parse_rxns` stops at the first failing line and keeps what it added before it (here also the
+counter advanced by the failing `add_rxn`): the next generated id is `r_3`. -/
+example : (step [{}] (.parseRxns 0
+      [("A>>B".toList, none), ("∅>>∅".toList, none), ("C>>D".toList, none)] "r" true false)).2 =
+    .err .valueError := by decide
+example : ((run (initWorld 1)
+    [.parseRxns 0 [("A>>B".toList, none), ("∅>>∅".toList, none), ("C>>D".toList, none)] "r" true false,
+     .addFromStr 0 "C>>D".toList none true])[0]?.map (·.ids)) = some ["r_1", "r_3"] := by decide
+
+/-- The rule table of `parse_rxns`: `default_rule` only counts when suffixes are not parsed;
+`prefer_suffix` lets the suffix override an explicit rule. -/
+example : ((({} : Store).parseRxns
+      [("A>>B".toList, none), ("A>>B | rule=R1".toList, none), ("A>>B".toList, some "X"),
+       ("A>>B | rule=R1".toList, some "X")] "d" true true).1.edges.map (·.rule)) =
+    ["r", "R1", "X", "R1"] := by decide
+example : ((({} : Store).parseRxns [("A>>B".toList, none)] "d" false false).1.edges.map (·.rule)) =
+    ["d"] := by decide
+
+/-- Non-vacuity of `parseRxns_spec`: a bare line with an explicit rule and a suffixed line
+without one are admissible together. -/
+example : ∀ it ∈ ([({ includeRule := false }, exRxn, some "X"), ({}, exRxn, none)] : List Item),
+    it.Wf true false := by
+  intro it hit
+  simp only [List.mem_cons, List.not_mem_nil, or_false] at hit
+  rcases hit with rfl | rfl
+  · exact ⟨Or.inl ⟨rfl, rfl⟩, by unfold WfSide; decide, by unfold WfLabels; decide,
+      (by intro h; cases h), by decide⟩
+  · exact ⟨Or.inr ⟨rfl, rfl, Or.inl rfl⟩, by unfold WfSide; decide, by unfold WfLabels; decide,
+      by intro _; unfold WfRule; decide, by decide⟩
+
+end Examples
 
 end SynKit.Store
